@@ -130,7 +130,9 @@ class Run:
         self.sched_stats[name] = len(sch)
         if kw.get("simulate") or n_all > len(sch):
             self.exhaustive = False
-        self.models.append(dict(name=name, cfgs=cfgs, schedules=len(sch), schedules_enumerated=n_all, states=r.distinct, transitions=r.generated,
+        from common import tagged_lines
+        self.models.append(dict(name=name, cfgs=cfgs, schedules=len(sch), schedules_enumerated=n_all,
+                                signatures=tagged_lines.signatures[0], signatures_replayed=tagged_lines.signatures[1], states=r.distinct, transitions=r.generated,
                                 wall_s=round(r.wall, 1), emit=True))
         return len(sch)
 
